@@ -75,7 +75,7 @@ def confirm(src: str, name: str) -> int:
         out_meta = {
             "property": meta.get("property", name.split("-")[0]),
             "summary": meta.get("summary"),
-            "needs_to_manifest": meta.get("needs"),
+            "needs_to_manifest": meta.get("needs_to_manifest") or meta.get("needs"),
             "files": meta.get("files"),
             "author": "independent sub-agent given only the property text and a scratch worktree",
             "confirmed_on_repo_head": head,
